@@ -173,6 +173,37 @@ def rawDelList (cfg : Cfg) (f : Forest) (m : Meta) (its : Items) (pos : Nat) : F
   (f.mapAt m.id (fun m' xs => let ys := removeAt pos xs; if cfg.reindexOnMutate then reindex m' ys else ys)).addRoot
     (if cfg.detachOnRemove then detachFrom .list old else old)
 
+/-- `slice(a, b, c).indices(len)` (CPython `PySlice_AdjustIndices`); `none`: step 0 (ValueError). -/
+def sliceIndices (a b c : Option Int) (len : Nat) : Option (Int × Int × Int) :=
+  let step := c.getD 1
+  if step = 0 then none else
+  let n : Int := len
+  let adj (x : Option Int) (dflt : Int) : Int :=
+    match x with
+    | none => dflt
+    | some v =>
+      let v := if v < 0 then v + n else v
+      if v < 0 then (if step < 0 then -1 else 0)
+      else if v ≥ n then (if step < 0 then n - 1 else n) else v
+  some (adj a (if step < 0 then n - 1 else 0), adj b (if step < 0 then -1 else n), step)
+
+/-- `len(range(start, stop, step))`. -/
+def rangeLen (start stop step : Int) : Nat :=
+  if step > 0 then (if start < stop then ((stop - start - 1) / step + 1).toNat else 0)
+  else (if stop < start then ((start - stop - 1) / (-step) + 1).toNat else 0)
+
+/-- `del l[a:b:c]` after the guards (list.py `__delitem__`): the addressed positions are removed
+(largest first, so nothing shifts meanwhile), every removed value is detached, then the list is
+re-indexed once. -/
+def rawDelMany (cfg : Cfg) (f : Forest) (m : Meta) (its : Items) (positions : List Nat) : Forest :=
+  let keys := positions.map (fun (n : Nat) => Key.i (Int.ofNat n))
+  let removed := (its.filter (fun kv => keys.contains kv.1)).map (·.2)
+  addRoots
+    (f.mapAt m.id (fun m' xs =>
+      let ys := renumber (xs.filter (fun kv => !keys.contains kv.1))
+      if cfg.reindexOnMutate then reindex m' ys else ys))
+    ((removed.filter Tree.isNode).map (fun c => if cfg.detachOnRemove then detachFrom .list c else c))
+
 /-! ### Operations -/
 
 inductive Op where
@@ -189,7 +220,9 @@ inductive Op where
   | lSort (t : Nat) (ranks : List Int) (rev : Bool)
   | lReverse (t : Nat)
   | lIMul (t : Nat) (n : Int)
-  | lSetSlice (t : Nat) (start stop step : Int) (vs : List VE)
+  | lSetSlice (t : Nat) (a b c : Option Int) (vs : List VE)   -- `l[a:b:c] = vs`
+  | lDelSlice (t : Nat) (a b c : Option Int)                   -- `del l[a:b:c]`
+  | setSeal (t : Nat) (flag : Bool)                              -- `x.seal(flag)`
   | dPop (t : Nat) (k : Key)
   | dPopItem (t : Nat)
   | dClear (t : Nat)
@@ -474,24 +507,46 @@ def step (cfg : Cfg) (f : Forest) (notifyOn : Bool) : Op → Res
         let vs := (List.replicate (n.toNat - 1) one).flatten
         finish f notifyOn (extendLoop cfg t f vs false) [m.id]
     | _ => ⟨f, .skip⟩
-  | .lSetSlice t start stop stp vs =>
+  | .lSetSlice t a b c vs =>
     match f.find? t with
-    | some (.node m _) =>
+    | some (.node m its) =>
       if m.sealed then ⟨f, .err .perm⟩ else
       if !m.accW then ⟨f, .err .perm⟩ else
-      -- glue guarantees 0 ≤ start ≤ stop ≤ len, stp ≥ 1 and, for stp > 1, matching sizes
-      let p := slicePrepare cfg m f 0 vs
-      let size : Nat := ((stop - start + stp - 1) / stp).toNat
-      let repl : List (Bool × VE) :=
+      match sliceIndices a b c its.length with
+      | none => ⟨f, .err .value⟩
+      | some (start, stop, stp) =>
+        let p := slicePrepare cfg m f 0 vs
+        let size : Nat := rangeLen start stop stp
+        let n := p.2.length
+        let run (start stp : Int) (repl : List (Bool × VE)) : Res :=
+          match sliceLoop cfg t start stp p.1 0 repl false with
+          | .error e => ⟨p.1, .err e⟩
+          | .ok (f', upd) => ⟨if notifyOn && upd then notify f' [m.id] else f', .ok⟩
         if stp = 1 then
-          (if size < p.2.length then
-            (p.2.zipIdx.map (fun vi => (decide (size ≤ vi.2), vi.1)))
-           else p.2.map (fun v => (false, v)) ++ List.replicate (size - p.2.length) (false, VE.atom .missing))
-        else p.2.map (fun v => (false, v))
-      let r := sliceLoop cfg t start stp p.1 0 repl false
-      match r with
-      | .error e => ⟨p.1, .err e⟩
-      | .ok (f', upd) => ⟨if notifyOn && upd then notify f' [m.id] else f', .ok⟩
+          run start 1
+            (if size < n then (p.2.zipIdx.map (fun vi => (decide (size ≤ vi.2), vi.1)))
+             else p.2.map (fun v => (false, v)) ++ List.replicate (size - n) (false, VE.atom .missing))
+        else if size ≠ n then ⟨p.1, .err .value⟩     -- raised after the values were formalized
+        else if stp < 0 then
+          run (start + ((size : Int) - 1) * stp) (-stp) (p.2.reverse.map (fun v => (false, v)))
+        else run start stp (p.2.map (fun v => (false, v)))
+    | _ => ⟨f, .skip⟩
+  | .lDelSlice t a b c =>
+    match f.find? t with
+    | some (.node m its) =>
+      if m.sealed then ⟨f, .err .perm⟩ else
+      if !m.accW then ⟨f, .err .perm⟩ else
+      match sliceIndices a b c its.length with
+      | none => ⟨f, .err .value⟩
+      | some (start, stop, stp) =>
+        let size := rangeLen start stop stp
+        if size = 0 then ⟨f, .ok⟩ else
+        let f' := rawDelMany cfg f m its ((List.range size).map (fun (i : Nat) => (start + (Int.ofNat i) * stp).toNat))
+        ⟨if notifyOn then notify f' [m.id] else f', .ok⟩
+    | _ => ⟨f, .skip⟩
+  | .setSeal t flag =>
+    match f.find? t with
+    | some (.node _ _) => ⟨{ f with roots := f.roots.map (Tree.mapSubtree t (Tree.seal flag)) }, .ok⟩
     | _ => ⟨f, .skip⟩
   | .dPop t k =>
     match f.find? t with
